@@ -14,7 +14,7 @@ sed -i "s|path = \"/repo\"|path = \"$ROOT/repo\"|" $ROOT/harness/Cargo.toml
 cp /repo/Cargo.lock $ROOT/harness/Cargo.lock
 mkdir -p $ROOT/target $ROOT/logs $ROOT/replays
 for k in 0 1 2 3 4 5 6 7; do [ -d $ROOT/target/slot$k ] || cp -a /verif/target/slot0 $ROOT/target/slot$k; done
-export VERIF_ALT_ROOT=$ROOT VERIF_JOBS=8 VERIF_MEM_GB=40
+export VERIF_ALT_ROOT=$ROOT VERIF_JOBS=6 VERIF_MEM_GB=30
 for spec in "$@"; do
   name=${spec%%:*}; prop=${spec##*:}
   git -C $ROOT/repo checkout -q -- . ; git -C $ROOT/repo clean -fdq
